@@ -93,8 +93,9 @@ def build(rng, idx, usedir):
     # helper functions needed by the faults
     helper = "def takes_string_only(string s) { s }\ndef two_params(x, y) { x }\n"
     main.noise(rng)
-    for _ in range(rng.randrange(0, 3)):
-        main.add(rng.choice(["var m%d = %d" % (rng.randrange(1000), rng.randrange(9)), "// top level", ""]))
+    for mi in range(rng.randrange(0, 3)):
+        # unique names: a repeated top-level name would be a 'Variable redefined' fault ahead of the planted one
+        main.add(rng.choice(["var m%d_%d = %d" % (rng.randrange(1000), mi, rng.randrange(9)), "// top level", ""]))
     ind = rng.choice(["", "  ", "\t"])
     pre = rng.choice(["", "var top = ", "print(1); "])
     ln = main.add(ind + pre + "%s(3)" % prev_callee)
